@@ -3,6 +3,7 @@ package main
 import (
 	"fmt"
 	"go/ast"
+	"go/token"
 	"go/types"
 )
 
@@ -36,12 +37,14 @@ func init() {
 		return []Value{{T: tBool, S: sx("fp.isNaN", args[0].S)}}
 	}}
 	stdModels["math.IsInf"] = stdModel{pure: true, f: func(v *FnV, st *State, call *ast.CallExpr, recv *Value, args []Value) []Value {
-		f, sign := args[0].S, args[1].S
+		f := args[0].S
+		zero := Value{T: args[1].T, S: v.c.intLit(args[1].T, 0)}
 		inf := sx("fp.isInfinite", f)
-		return []Value{{T: tBool, S: sAnd(inf, sOr(sAnd(sGe(sign, "0"), sx("fp.isPositive", f)), sAnd(sLe(sign, "0"), sx("fp.isNegative", f))))}}
+		return []Value{{T: tBool, S: sAnd(inf, sOr(sAnd(v.c.cmp(token.GEQ, args[1], zero), sx("fp.isPositive", f)), sAnd(v.c.cmp(token.LEQ, args[1], zero), sx("fp.isNegative", f))))}}
 	}}
 	stdModels["math.Inf"] = stdModel{pure: true, f: func(v *FnV, st *State, call *ast.CallExpr, recv *Value, args []Value) []Value {
-		return []Value{{T: tFloat64, S: sIte(sGe(args[0].S, "0"), "(_ +oo 11 53)", "(_ -oo 11 53)")}}
+		zero := Value{T: args[0].T, S: v.c.intLit(args[0].T, 0)}
+		return []Value{{T: tFloat64, S: sIte(v.c.cmp(token.GEQ, args[0], zero), "(_ +oo 11 53)", "(_ -oo 11 53)")}}
 	}}
 	stdModels["math.NaN"] = stdModel{pure: true, f: func(v *FnV, st *State, call *ast.CallExpr, recv *Value, args []Value) []Value {
 		return []Value{{T: tFloat64, S: "(_ NaN 11 53)"}}
@@ -273,6 +276,20 @@ func (v *FnV) stdGlobal(st *State, pkgPath, name string) Value {
 		}
 	}
 	return st.freshVal(name, types.Universe.Lookup("error").Type())
+}
+
+// strLtFns: Go's < on strings is bytewise lexicographic order. Only its order
+// properties are axiomatised (STRLTAX, trusted): a strict total order on contents.
+func (c *Ctx) strLtFns() {
+	c.glob("strlt", "(declare-fun str_lt (Str Str) Bool)",
+		"(assert (forall ((a Str) (b Str)) (! (not (and (str_lt a b) (str_lt b a))) :pattern ((str_lt a b)))))",
+		"(assert (forall ((a Str) (b Str) (c Str)) (! (=> (and (str_lt a b) (str_lt b c)) (str_lt a c)) :pattern ((str_lt a b) (str_lt b c)))))",
+		"(assert (forall ((a Str) (b Str)) (! (=> (str_eq a b) (and (not (str_lt a b)) (not (str_lt b a)))) :pattern ((str_lt a b)))))",
+		"(assert (forall ((a Str) (b Str)) (! (=> (and (not (str_lt a b)) (not (str_lt b a))) (str_eq a b)) :pattern ((str_lt a b)))))",
+		// negative transitivity (a consequence of being a strict TOTAL order on contents)
+		"(assert (forall ((a Str) (b Str) (c Str)) (! (=> (str_lt a c) (or (str_lt a b) (str_lt b c))) :pattern ((str_lt a c) (str_lt a b)) :pattern ((str_lt a c) (str_lt b c)))))",
+	)
+	c.trusted["STRLTAX: Go's < on strings is a strict total order on string contents (order axioms only)"] = true
 }
 
 func (c *Ctx) atoiFns() {
